@@ -1,100 +1,16 @@
 /-
 C16 — call flags and manifest permissions confine what called code can do.
-Property theorems only (helper lemmas: Proofs/FlagsBasic.lean; model: Model/Flags.lean;
-regenerated tables: Generated/Interops.lean, Generated/NativeMethods.lean).
+Property theorems only (helper lemmas: Proofs/FlagsBasic.lean, FlagsManifest.lean; table obligations:
+Proofs/FlagsTables.lean, FlagsTablesSrc.lean; models: Model/Flags.lean, Model/Flags/Manifest.lean; regenerated tables:
+Generated/Interops.lean, NativeMethods.lean, Effects.lean, ManifestConsts.lean).
 -/
 import NeoModel.Proofs.FlagsBasic
+import NeoModel.Proofs.FlagsTables
+import NeoModel.Proofs.FlagsTablesSrc
+import NeoModel.Proofs.FlagsManifest
+import NeoModel.Generated.ManifestConsts
 namespace NeoModel.Flags
 open CallFlags Generated
-
-/-! ## 1. The regenerated tables are guarded (re-proved against the current source on every run) -/
-
-/-- the expectation-table check of one system call: classified, 4-bit flags, and either usable only by
-the system trigger or every expected effect is covered by a required flag. -/
-def syscallOk (e : Interops.Entry) : Bool :=
-  match classifySyscall e.name with
-  | Option.none => false
-  | some (eff, sysOnly) => decide (e.flags < 16) && (sysOnly || guarded (ofNat e.flags) eff)
-
-set_option maxRecDepth 100000 in
-/-- `table_guards`, system calls: every system call of the node is classified in the hand-written expectation
-table (a new one is not, and breaks this), and each one expected to write requires WriteStates, to notify
-AllowNotify, to start a call AllowCall — except the two persist calls that only the system trigger can run. -/
-theorem table_guards_syscalls : ∀ e ∈ Interops.table, syscallOk e = true := by decide
-
-/-- the only system calls exempted as system-trigger-only. -/
-theorem sysonly_syscalls :
-    (syscallClass.filter (·.2.2)).map (·.1) = ["System.Contract.NativeOnPersist", "System.Contract.NativePostPersist"] := by
-  decide
-
-/-- the expectation-table check of one native method descriptor (flag coverage is `nativeViolationsAt`). -/
-def nativeOk (m : NativeMethods.Entry) : Bool :=
-  match classifyNative m with
-  | Option.none => false
-  | some eff => decide (m.flags < 16) && (!m.safe || (!eff.write && !eff.notify && !eff.call))
-      && (m.safe == ((ofNat m.flags).inter (ofNat Interops.safeDefMask) == CallFlags.empty))
-      && (!eff.call || m.deferrable)
-
-set_option maxRecDepth 100000 in
-/-- `table_guards`, native methods (1): every native method descriptor of the node is classified; a method
-published as safe is expected to have no write/notify/call effect; `Safe` is exactly "requires none of the
-bits of AddMethod's mask" (WriteStates|AllowNotify); only deferrable handlers are expected to start calls. -/
-theorem table_guards_natives : ∀ m ∈ NativeMethods.table, nativeOk m = true := by decide
-
-set_option maxRecDepth 100000 in
-/-- `table_guards`, native methods (2), PARTIAL — the full statement "at every hardfork every expected effect of
-every active native method is covered by a required flag" is FALSE on the current code; what holds is: the
-uncovered (method, effect) pairs are exactly these, per hardfork index (0 = genesis rules … 8 = Huyao):
-* notifications of NEO registerCandidate/unregisterCandidate/vote without AllowNotify before Echidna (index 5) —
-  retired descriptors, the Echidna versions require AllowNotify;
-* ContractManagement deploy/update calling `_deploy` without AllowCall before Aspidochelone (index 1);
-* at EVERY hardfork incl. the latest: NEO.vote (and from Faun Policy.blockAccount and
-  ContractManagement.destroy, through vote revocation) pays the voter's GAS reward with the
-  `onNEP17Payment` callback (native_neo.go:1111 → native_nep17.go:236) although the method requires
-  only States|AllowNotify: a contract call from a context that need not hold AllowCall. -/
-theorem table_guards_natives_partial :
-    (List.range 9).map nativeViolationsAt =
-    [ [("ContractManagement", "deploy", 2, "call"), ("ContractManagement", "deploy", 3, "call"),
-       ("ContractManagement", "destroy", 0, "call"),
-       ("ContractManagement", "update", 2, "call"), ("ContractManagement", "update", 3, "call"),
-       ("NeoToken", "registerCandidate", 1, "notify"), ("NeoToken", "unregisterCandidate", 1, "notify"),
-       ("NeoToken", "vote", 2, "notify"), ("NeoToken", "vote", 2, "call")],
-      [("ContractManagement", "destroy", 0, "call"), ("NeoToken", "registerCandidate", 1, "notify"),
-       ("NeoToken", "unregisterCandidate", 1, "notify"), ("NeoToken", "vote", 2, "notify"), ("NeoToken", "vote", 2, "call")],
-      [("ContractManagement", "destroy", 0, "call"), ("NeoToken", "registerCandidate", 1, "notify"),
-       ("NeoToken", "unregisterCandidate", 1, "notify"), ("NeoToken", "vote", 2, "notify"), ("NeoToken", "vote", 2, "call")],
-      [("ContractManagement", "destroy", 0, "call"), ("NeoToken", "registerCandidate", 1, "notify"),
-       ("NeoToken", "unregisterCandidate", 1, "notify"), ("NeoToken", "vote", 2, "notify"), ("NeoToken", "vote", 2, "call")],
-      [("ContractManagement", "destroy", 0, "call"), ("NeoToken", "registerCandidate", 1, "notify"),
-       ("NeoToken", "unregisterCandidate", 1, "notify"), ("NeoToken", "vote", 2, "notify"), ("NeoToken", "vote", 2, "call")],
-      [("ContractManagement", "destroy", 0, "call"), ("NeoToken", "vote", 2, "call")],
-      [("ContractManagement", "destroy", 0, "call"), ("NeoToken", "vote", 2, "call"), ("PolicyContract", "blockAccount", 1, "call")],
-      [("ContractManagement", "destroy", 0, "call"), ("NeoToken", "vote", 2, "call"), ("PolicyContract", "blockAccount", 1, "call")],
-      [("ContractManagement", "destroy", 0, "call"), ("NeoToken", "vote", 2, "call"), ("PolicyContract", "blockAccount", 1, "call")] ] := by
-  decide
-
-/-- negation witness for the full statement: at the latest hardfork NEO.vote is expected to start a call and
-its required flags (States|AllowNotify = 11) do not include AllowCall. -/
-theorem vote_calls_without_allowcall :
-    ∃ m ∈ NativeMethods.table, m.contract = "NeoToken" ∧ m.name = "vote" ∧ activeAt 8 m = true ∧
-      classifyNative m = some wnc ∧ (nativeReq 8 m).call = false := by
-  refine ⟨⟨"NeoToken", -5, "vote", 2, 11, false, true, true, 5, 0, 65536, 0⟩, by decide, rfl, rfl, by decide, by decide, by decide⟩
-
-set_option maxRecDepth 100000 in
-/-- the linked system-call table and the table re-read from the source text agree (name, flags). -/
-theorem interops_linked_eq_source : Interops.table.map (fun e => (e.name, e.flags)) = Interops.sourceTable := by decide
-
-/-- does a source registration `s` describe the linked descriptor `m` at hardfork `hf`? -/
-def srcMatches (hf : Nat) (m : NativeMethods.Entry) (s : String × String × Nat × Nat × Bool × Nat × Nat) : Bool :=
-  s.2.1 == m.name && (s.2.2.1 == m.nparams || s.2.2.1 == 99) && s.2.2.2.1 == m.flags && s.2.2.2.2.1 == m.deferrable &&
-  decide (s.2.2.2.2.2.1 ≤ hf) && (s.2.2.2.2.2.2 == 0 || decide (hf < s.2.2.2.2.2.2))
-
-set_option maxRecDepth 1000000 in
-/-- every linked native descriptor, at every hardfork at which it is active, is a registration found in the
-source text of pkg/core/native (same name, parameter count, flags, deferrable, active there). -/
-theorem natives_linked_in_source :
-    ∀ hf ∈ List.range 9, ∀ m ∈ NativeMethods.table, activeAt hf m = true →
-      NativeMethods.sourceTable.any (srcMatches hf m) = true := by decide
 
 /-- the call-path constants found in the source are the expected ones. -/
 theorem call_path_constants :
@@ -127,7 +43,7 @@ theorem flags_shrink (P : Params) (f : Frame) (prog : List Instr) :
 example :
     let A : Target := ⟨1, ⟨[], [⟨.wildcard, Option.none⟩]⟩, "m", false⟩
     let sc : Prim := ⟨ofNat 5, c⟩
-    ((run Params.real (State.init ⟨all, Option.none, false⟩)
+    ((run Params.real (State.init (Frame.entry all Option.none))
       [.call sc false (ofNat 7) A, .call sc true (ofNat 5) A]).stack.map (·.flags.toNat)) = [5, 7, 15] := by decide
 
 /-- `no_effect_without_flag`: if the required flags of the program's primitives cover their effect of kind `k`
@@ -180,13 +96,113 @@ theorem safe_never_modifies (P : Params) (hP : P.SafeDrops)
     have := no_effect_without_flag P .notify f prog hgn ev hev hk g hgm
     simp [kindFlag, hs.2] at this
 
-/-- `call_needs_permission`: every call made with System.Contract.Call/CALLT from a deployed contract to a
-non-safe method passed `Manifest.CanCall` of the calling contract's manifest. -/
-theorem call_needs_permission (P : Params) (f : Frame) (prog : List Instr) :
+/-- `call_needs_permission` (from Domovoi on, `callerFromContext`): every call made with System.Contract.Call/CALLT
+from a deployed contract to a non-safe method passed `Manifest.CanCall` of the manifest of the EXECUTING context. -/
+theorem call_needs_permission (P : Params) (hP : P.callerFromContext = true) (f : Frame) (prog : List Instr) :
     ∀ ev ∈ (run P (State.init f) prog).events, ∀ t, ev.target = some t → t.safe = false →
-      ∀ cur rest m, ev.stack = cur :: rest → cur.manifest = some m → m.canCall t.hash t.manifest t.method = true :=
-  run_inv P InvPerm (fun _ => True) (fun s i _ h => step_invPerm P s i h) prog (State.init f)
+      ∀ cur rest m, ev.stack = cur :: rest → cur.manifest = some m → m.canCall t.hash t.manifest t.method = true := by
+  intro ev hev t ht hs cur rest m hst hm
+  have h1 := run_inv P InvPerm (fun _ => True) (fun s i _ h => step_invPerm P s i h) prog (State.init f)
     (fun _ _ => trivial) (by intro e he; simp [State.init] at he)
+  have h2 := run_inv P (InvChecked P) (fun _ => True) (fun s i _ h => step_invChecked P s i h) prog (State.init f)
+    (fun _ _ => trivial) (by intro e he; simp [State.init] at he)
+  obtain ⟨stored, hc⟩ := h2 ev hev t ht cur rest hst
+  exact h1 ev hev t ht m (by rw [hc]; simp [consulted, hs, hm, hP])
+
+/-- `call_needs_permission_legacy` (any hardfork): every such call passed `CanCall` of the manifest callInternal
+CONSULTED — before Domovoi that is the caller's manifest as ContractManagement's storage has it at that moment
+(`stored`), and if the contract is not found there any more (destroyed earlier in the same execution) NO check runs. -/
+theorem call_needs_permission_legacy (P : Params) (f : Frame) (prog : List Instr) :
+    ∀ ev ∈ (run P (State.init f) prog).events, ∀ t, ev.target = some t →
+      (∀ m, ev.checked = some m → m.canCall t.hash t.manifest t.method = true) ∧
+      ∀ cur rest, ev.stack = cur :: rest → ∃ stored, ev.checked = consulted P cur t stored := by
+  intro ev hev t ht
+  have h1 := run_inv P InvPerm (fun _ => True) (fun s i _ h => step_invPerm P s i h) prog (State.init f)
+    (fun _ _ => trivial) (by intro e he; simp [State.init] at he)
+  have h2 := run_inv P (InvChecked P) (fun _ => True) (fun s i _ h => step_invChecked P s i h) prog (State.init f)
+    (fun _ _ => trivial) (by intro e he; simp [State.init] at he)
+  exact ⟨h1 ev hev t ht, h2 ev hev t ht⟩
+
+/-- the hardfork from which the executing context's manifest is consulted is Domovoi (index 4); `Params.realAt`. -/
+theorem caller_manifest_hardfork :
+    Interops.callerManifestFromContextSince = 4 ∧ Interops.hardforks[4]? = some "Domovoi" ∧
+    ∀ hf ∈ List.range 9, (Params.realAt hf).callerFromContext = decide (4 ≤ hf) := by decide
+
+/-- negation witness for "a deployed contract calls a non-safe method only with a matching permission" under the
+hardfork configurations before Domovoi: a contract WITHOUT any permission that is no longer found in storage
+(it destroyed itself earlier in the same execution) enters a non-safe method of another contract; from Domovoi on
+the same program faults. Reproduced on the chain (known finding `call-without-permission:destroyed-caller`). -/
+theorem legacy_destroyed_caller_calls_unchecked :
+    let caller : Frame := Frame.entry all (some ⟨[], []⟩)
+    let sc : Prim := ⟨ofNat 5, c⟩
+    let prog : List Instr := [.call sc false all ⟨2, ⟨[], []⟩, "a", false⟩ Option.none]
+    (run (Params.realAt 3) (State.init caller) prog).halted = false ∧
+    (run (Params.realAt 4) (State.init caller) prog).halted = true := by decide
+
+/-! ## 2b. Call paths: requested flags, and the exact exception to the safe-method drop -/
+
+/-- `frames_bounded`: for every program (hence every call tree, of any depth and shape, with returns and further
+calls after them) every context on the invocation stack at every moment — and on the stack recorded with every
+event — holds at most the flags of its caller AND at most the flags its creator requested (System.Contract.Call:
+the flags argument; CALLT: the flags of the NEF method token; LoadScript: the flags argument; CallFromNative:
+All). -/
+theorem frames_bounded (P : Params) (f : Frame) (hf : FrameOk f) (prog : List Instr) :
+    (Antitone (run P (State.init f) prog).stack ∧ ∀ g ∈ (run P (State.init f) prog).stack, g.flags ≤ g.requested) ∧
+    ∀ ev ∈ (run P (State.init f) prog).events, Antitone ev.stack ∧ ∀ g ∈ ev.stack, g.flags ≤ g.requested := by
+  have h1 := run_inv P InvAnti (fun _ => True) (fun s i _ h => step_invAnti P s i h) prog (State.init f)
+    (fun _ _ => trivial) ⟨by simp [State.init, Antitone], by simp [State.init]⟩
+  have h2 := run_inv P InvVia (fun _ => True) (fun s i _ h => step_invVia P s i h) prog (State.init f)
+    (fun _ _ => trivial) ⟨by intro g hg; simp [State.init] at hg; subst hg; exact hf, by simp [State.init]⟩
+  exact ⟨⟨h1.1, fun g hg => (h2.1 g hg).1⟩, fun ev hev => ⟨h1.2 ev hev, fun g hg => (h2.2 ev hev g hg).1⟩⟩
+
+/-- `safe_target_exception_exact`: if both callInternal paths drop WriteStates|AllowNotify for safe methods, then in
+every reachable state a context that runs a method MARKED SAFE and nevertheless holds WriteStates or AllowNotify
+was created by contract.CallFromNative — no other way of creating a context (System.Contract.Call, CALLT,
+LoadScript, at any depth, after any history) produces one. So the known finding
+`safe-method-modifies:native-callback` is the ONLY exception to "a safe method runs without WriteStates|AllowNotify",
+and any other path showing it is a violation of the model (hence a disagreement of the tie). -/
+theorem safe_target_exception_exact (P : Params) (hP : P.SafeDrops) (f : Frame) (hf : FrameOk f)
+    (hf0 : f.viaSafe = false) (prog : List Instr) :
+    (∀ g ∈ (run P (State.init f) prog).stack, g.safeTarget = true →
+        (g.flags.write = true ∨ g.flags.notify = true) → g.via = .native) ∧
+    ∀ ev ∈ (run P (State.init f) prog).events, ∀ g ∈ ev.stack, g.safeTarget = true →
+        (g.flags.write = true ∨ g.flags.notify = true) → g.via = .native := by
+  have h2 := run_inv P InvVia (fun _ => True) (fun s i _ h => step_invVia P s i h) prog (State.init f)
+    (fun _ _ => trivial) ⟨by intro g hg; simp [State.init] at hg; subst hg; exact hf, by simp [State.init]⟩
+  have h3 := run_inv P InvSafe (fun _ => True) (fun s i _ h => step_invSafe P hP s i h) prog (State.init f)
+    (fun _ _ => trivial) ⟨by intro g hg; simp [State.init] at hg; subst hg; simp [hf0], by simp [State.init]⟩
+  have key : ∀ g : Frame, FrameOk g → (g.viaSafe = true → g.flags.write = false ∧ g.flags.notify = false) →
+      g.safeTarget = true → (g.flags.write = true ∨ g.flags.notify = true) → g.via = .native := by
+    intro g ⟨_, hv, hs⟩ hsafe ht hw
+    cases hvia : g.via with
+    | native => rfl
+    | entry => have := hs (Or.inr hvia); simp [ht] at this
+    | script => have := hs (Or.inl hvia); simp [ht] at this
+    | call =>
+      have : g.viaSafe = true := by rw [hv, ht, hvia]; rfl
+      have := hsafe this
+      rcases hw with hw | hw <;> simp [this.1, this.2] at hw
+    | token =>
+      have : g.viaSafe = true := by rw [hv, ht, hvia]; rfl
+      have := hsafe this
+      rcases hw with hw | hw <;> simp [this.1, this.2] at hw
+  exact ⟨fun g hg => key g (h2.1 g hg) (h3.1 g hg), fun ev hev g hg => key g (h2.2 ev hev g hg) (h3.2 ev hev g hg)⟩
+
+/-- the exception is real on the node's constants (negation witness of "a safe method never runs with
+WriteStates|AllowNotify"): a native method starting `onNEP17Payment` of a contract that marks it safe creates a
+context with flags All. -/
+theorem native_callback_keeps_write_for_safe :
+    let t : Target := ⟨1, ⟨[], []⟩, "onNEP17Payment", true⟩
+    ((run Params.real (State.init (Frame.entry all Option.none)) [.nativeCall ⟨ofNat 15, wnc⟩ t]).stack.map
+      (fun g => (g.flags.toNat, g.safeTarget, g.via == .native))) = [(15, true, true), (15, false, false)] := by decide
+
+-- non-vacuity of `frames_bounded` / `safe_target_exception_exact`: a tree with two children of the entry, the first
+-- returns before the second is called; requested 7 then 13 from flags 15: children hold 7 and 13
+example :
+    let A : Target := ⟨1, ⟨[], []⟩, "m", false⟩
+    let sc : Prim := ⟨ofNat 5, c⟩
+    let s := run Params.real (State.init (Frame.entry all Option.none)) [.call sc false (ofNat 7) A, .ret, .call sc true (ofNat 13) A]
+    (s.stack.map (fun g => (g.flags.toNat, g.requested.toNat)), s.events.length) = ([(13, 13), (15, 15)], 2) := by decide
 
 /-! ## 3. Permission matching -/
 
@@ -221,10 +237,10 @@ example : (Manifest.mk [] [⟨.group 7, some ["a"]⟩]).canCall 1 ⟨[7], []⟩ 
 system-trigger-only ones), CALLT, native methods active at `hf`. -/
 def realPrims (hf : Nat) : List Prim :=
   (Interops.table.filterMap fun e =>
-    match classifySyscall e.name with
+    match classifySyscall hf e.name with
     | some (eff, false) => some ⟨ofNat e.flags, eff⟩
     | _ => Option.none)
-  ++ [callTPrim]
+  ++ [callTPrim hf]
   ++ ((NativeMethods.table.filter (activeAt hf)).filterMap (nativePrim hf))
 
 /-- the natives that pay a GAS reward with an `onNEP17Payment` callback without requiring AllowCall
@@ -233,11 +249,11 @@ def isCallbackException (p : Prim) : Bool := p.eff.call && !p.req.call
 
 set_option maxRecDepth 1000000 in
 theorem realPrims_guard_write : ∀ hf ∈ List.range 9, ∀ p ∈ realPrims hf, p.eff.write = true → p.req.write = true := by
-  decide
+  decide +kernel
 
 set_option maxRecDepth 1000000 in
 theorem realPrims_guard_notify : ∀ hf ∈ [5, 6, 7, 8], ∀ p ∈ realPrims hf, p.eff.notify = true → p.req.notify = true := by
-  decide
+  decide +kernel
 
 /-- a program over the node's primitives at hardfork `hf`. -/
 def RealProg (hf : Nat) (prog : List Instr) : Prop := ∀ i ∈ prog, ∀ p, i.prim? = some p → p ∈ realPrims hf
@@ -283,35 +299,157 @@ theorem real_safe_never_modifies (hf : Nat) (hhf : hf ∈ [5, 6, 7, 8]) (f : Fra
 -- permission irrelevant: the entry script is not deployed) which puts to storage and notifies: 3 events …
 example :
     let A : Target := ⟨1, ⟨[], []⟩, "m", false⟩
-    (syscallPrim "System.Contract.Call").bind (fun sc =>
-    (syscallPrim "System.Storage.Put").bind (fun put =>
-    (syscallPrim "System.Runtime.Notify").map (fun ntf =>
-      ((run Params.real (State.init ⟨all, Option.none, false⟩)
+    (syscallPrim 8 "System.Contract.Call").bind (fun sc =>
+    (syscallPrim 8 "System.Storage.Put").bind (fun put =>
+    (syscallPrim 8 "System.Runtime.Notify").map (fun ntf =>
+      ((run Params.real (State.init (Frame.entry all Option.none))
         [.call sc false all A, .prim put, .prim ntf, .ret]).events.map (·.kind))))) = some [.notify, .write, .call] := by
-  decide
+  decide +kernel
 -- … and the same program entered through a safe method faults at the Put, before any write:
 example :
     let A : Target := ⟨1, ⟨[], []⟩, "m", true⟩
-    (syscallPrim "System.Contract.Call").bind (fun sc =>
-    (syscallPrim "System.Storage.Put").bind (fun put =>
-    (syscallPrim "System.Runtime.Notify").map (fun ntf =>
-      let s := run Params.real (State.init ⟨all, Option.none, false⟩) [.call sc false all A, .prim put, .prim ntf, .ret]
+    (syscallPrim 8 "System.Contract.Call").bind (fun sc =>
+    (syscallPrim 8 "System.Storage.Put").bind (fun put =>
+    (syscallPrim 8 "System.Runtime.Notify").map (fun ntf =>
+      let s := run Params.real (State.init (Frame.entry all Option.none)) [.call sc false all A, .prim put, .prim ntf, .ret]
       (s.events.map (·.kind), s.halted)))) = some ([.call], true) := by
-  decide
+  decide +kernel
 -- … also when it is entered with CALLT through a method token whose flags are All:
 example :
     let A : Target := ⟨1, ⟨[], []⟩, "m", true⟩
-    (syscallPrim "System.Storage.Put").map (fun put =>
-      let s := run Params.real (State.init ⟨all, Option.none, false⟩) [.call callTPrim true all A, .prim put]
+    (syscallPrim 8 "System.Storage.Put").map (fun put =>
+      let s := run Params.real (State.init (Frame.entry all Option.none)) [.call (callTPrim 8) true all A, .prim put]
       (s.stack.map (·.flags.toNat), s.events.map (·.kind), s.halted)) = some ([5, 15], [.call], true) := by
-  decide
+  decide +kernel
 -- a deployed caller without a matching permission cannot call a non-safe method, but can call a safe one
 example :
-    let caller : Frame := ⟨all, some ⟨[], [⟨.hash 2, Option.none⟩]⟩, false⟩
+    let caller : Frame := Frame.entry all (some ⟨[], [⟨.hash 2, Option.none⟩]⟩)
     let sc : Prim := ⟨ofNat 5, c⟩
     ((run Params.real (State.init caller) [.call sc false all ⟨1, ⟨[], []⟩, "m", false⟩]).halted,
      (run Params.real (State.init caller) [.call sc true all ⟨1, ⟨[], []⟩, "m", true⟩]).halted,
      (run Params.real (State.init caller) [.call sc false all ⟨2, ⟨[], []⟩, "m", false⟩]).halted) = (true, false, false) := by
-  decide
+  decide +kernel
 
 end NeoModel.Flags
+
+namespace NeoModel.Flags.MF
+open NeoModel.Generated
+
+/-! ## 5. Whole manifests: validity, the stored (stack-item) form, the permission check on concrete ids -/
+
+/-- the literals of the model are the node's constants (regenerated from the linked packages). -/
+theorem manifest_consts :
+    ManifestConsts.voidType = voidType ∧ ManifestConsts.signatureLen = 64 ∧ ManifestConsts.uint160Size = 20 ∧
+    ManifestConsts.compressedKeyLen = 33 ∧ ManifestConsts.permissionTypes = [0, 1, 2] ∧
+    ManifestConsts.voidType ∈ ManifestConsts.validParamTypes := by decide
+
+/-- `manifest_item_roundtrip`: for EVERY manifest value whose strings are valid UTF-8, whose parameter / return
+types are valid, whose keys are canonical encodings of decodable keys and whose signatures have 64 bytes (what JSON
+decoding and the Go types establish), Manifest.FromStackItem(Manifest.ToStackItem(m)) succeeds and yields `m` up to
+`normalize` (nil slices become empty, features become `{}`, the trusts container canonical, `extra` re-marshalled)
+— whatever the numbers of groups, methods, parameters, events, permissions, trusts. -/
+theorem manifest_item_roundtrip (d : Dec) (compact : Bytes → Bytes) (m : Man) (h : m.WF d) :
+    d.man (m.toItem compact) = some (m.normalize compact) := man_roundtrip d compact m h
+
+/-- the stored form decides every call exactly as the original: as the caller … -/
+theorem roundtrip_keeps_canCall (compact : Bytes → Bytes) (m callee : Man) (hash method : Bytes) :
+    (m.normalize compact).canCall hash callee method = m.canCall hash callee method ∧
+    m.canCall hash (callee.normalize compact) method = m.canCall hash callee method := by
+  constructor <;> rfl
+
+theorem trustsValid_normalize (t : Trusts) (h : trustsValid t = none) :
+    trustsValid (if t.wildcard then ⟨none, true⟩ else ⟨some (t.value.getD []), false⟩) = none := by
+  obtain ⟨v, w⟩ := t
+  cases w
+  · cases v with
+    | none => simp [trustsValid] at h
+    | some v => simpa [trustsValid] using h
+  · simp [trustsValid, hasDupBy]
+
+theorem orElse_none {α : Type} (a b : Option α) : (a <|> b) = none ↔ a = none ∧ b = none := by
+  cases a <;> simp
+
+/-- … and it stays valid: `IsValid` of the manifest read back from storage does not fail if the original passed. -/
+theorem roundtrip_keeps_valid (validTypes : List Nat) (verify : Bytes → Bytes → Bool) (checkHash : Bool)
+    (compact : Bytes → Bytes) (m : Man) (h : m.isValid validTypes verify checkHash = none) :
+    (m.normalize compact).isValid validTypes verify checkHash = none := by
+  simp only [Man.isValid, orElse_none] at h ⊢
+  obtain ⟨h1, h2, h3, h4, h5, h6, h7, h8⟩ := h
+  refine ⟨h1, h2, h3, h4, by simp [Man.normalize, featuresOk], ?_, trustsValid_normalize _ h7, h8⟩
+  cases hg : m.groups with
+  | none => rw [hg] at h6; simp [groupsValid] at h6
+  | some gs => rw [hg] at h6; simpa [Man.normalize, hg] using h6
+
+/-- a valid manifest has at most one permission per contract descriptor (so "the first matching permission" and
+"any matching permission" could only differ in which method list applies, and there is only one). -/
+theorem valid_perms_one_per_contract (validTypes : List Nat) (verify : Bytes → Bytes → Bool) (checkHash : Bool)
+    (m : Man) (h : m.isValid validTypes verify checkHash = none) :
+    m.perms.Pairwise (fun p q => p.contract ≠ q.contract) := by
+  simp only [Man.isValid, orElse_none] at h
+  have h8 := h.2.2.2.2.2.2.2
+  simp only [permsValid, orElse_none] at h8
+  have hd : hasDupBy (fun a b : Perm => a.contract == b.contract) m.perms = false := by
+    cases hh : hasDupBy (fun a b : Perm => a.contract == b.contract) m.perms with
+    | false => rfl
+    | true => simp [hh] at h8
+  have hp : m.perms.Pairwise (fun a b => (a.contract == b.contract) = false) := by
+    apply Classical.byContradiction
+    intro hn
+    have := (hasDupBy_iff (fun a b : Perm => a.contract == b.contract) m.perms).2 hn
+    rw [hd] at this; cases this
+  exact hp.imp (fun {a b} hab => by simpa using hab)
+
+/-- the answer of CanCall is a function of the SET of permissions: the code evaluates
+`slices.ContainsFunc(m.Permissions, IsAllowed)`, an existential — invariant under any reordering or duplication. -/
+theorem canCall_set_only (m m' : Man) (h : ∀ p, p ∈ m.perms ↔ p ∈ m'.perms) (hash : Bytes) (callee : Man) (method : Bytes) :
+    m.canCall hash callee method = m'.canCall hash callee method := canCall_congr m m' h hash callee method
+
+theorem canCall_order_free (m m' : Man) (h : m.perms.Perm m'.perms) (hash : Bytes) (callee : Man) (method : Bytes) :
+    m.canCall hash callee method = m'.canCall hash callee method :=
+  canCall_congr m m' (fun _ => h.mem_iff) hash callee method
+
+/-- `canCall_iff` on concrete hashes and keys: some permission matches the callee (wildcard, its hash, or a key of
+one of its groups) AND the method (wildcard or listed). -/
+theorem Man.canCall_iff (m : Man) (hash : Bytes) (callee : Man) (method : Bytes) :
+    m.canCall hash callee method = true ↔
+      ∃ p ∈ m.perms,
+        (p.contract = .wildcard ∨ p.contract = .hash hash ∨ ∃ g ∈ callee.groups.getD [], p.contract = .group g.key) ∧
+        (p.methods = none ∨ ∃ ms, p.methods = some ms ∧ method ∈ ms) := by
+  rw [canCall_iff_exists]
+  constructor
+  · rintro ⟨p, hp, ha⟩
+    refine ⟨p, hp, ?_⟩
+    obtain ⟨c, ms⟩ := p
+    cases c <;> cases ms <;> simp_all [Perm.isAllowed] <;> grind
+  · rintro ⟨p, hp, hc, hm⟩
+    refine ⟨p, hp, ?_⟩
+    obtain ⟨c, ms⟩ := p
+    cases c <;> cases ms <;> simp_all [Perm.isAllowed] <;> grind
+
+/-- `sliceHasDups` (sort, then compare neighbours) decides "two positions hold equivalent elements" for every
+comparison that is a total preorder, whatever correct sorting algorithm is used. -/
+theorem sliceHasDups_correct {α : Type} {le : α → α → Prop} {eqv : α → α → Bool} (P : Preorder' le eqv)
+    (sort : List α → List α) (hperm : ∀ l, (sort l).Perm l) (hsorted : ∀ l, (sort l).Pairwise le) (x : List α) :
+    (if x.length < 2 then false else adjDup eqv (if x.length > 2 then sort x else x)) = hasDupBy eqv x :=
+  sliceHasDups_spec P sort hperm hsorted x
+
+-- non-vacuity: a manifest with a group, two permissions (one by group key), explicit trusts: it is valid, survives
+-- the round trip, and is refused once a second permission for the same key is added
+def exKey (b : UInt8) : Bytes := 2 :: List.replicate 32 b
+def exMan : Man :=
+  { name := [0x63], groups := some [⟨exKey 7, List.replicate 64 1⟩], features := [0x7b, 0x20, 0x7d], standards := [[0x78]],
+    methods := [⟨[0x6d], 0, [⟨[0x61], 17⟩], 255, true⟩], events := [⟨[0x45], []⟩],
+    perms := [⟨.group (exKey 9), some [[0x61]]⟩, ⟨.hash (List.replicate 20 3), none⟩],
+    trusts := ⟨some [.wildcard], false⟩, extra := [] }
+def exDec : Dec := ⟨fun _ => true, fun k => if k.length == 33 then some k else none, ManifestConsts.validParamTypes⟩
+
+example : exMan.isValid ManifestConsts.validParamTypes (fun _ _ => true) true = none := by decide
+example : exDec.man (exMan.toItem id) = some (exMan.normalize id) := by decide
+example : exMan.WF exDec := by
+  refine ⟨rfl, ?_, ?_, ?_, ?_, ?_, ?_⟩ <;> simp [exMan, exDec, exKey, Group.WF, Method.WF, Param.WF, Event.WF, Perm.WF, Desc.WF, ManifestConsts.validParamTypes]
+example : ({ exMan with perms := exMan.perms ++ [(⟨.group (exKey 9), none⟩ : Perm)] } : Man).isValid ManifestConsts.validParamTypes (fun _ _ => true) true
+    = some .dupPermissions := by decide
+example : exMan.canCall (List.replicate 20 4) { exMan with groups := some [⟨exKey 9, []⟩] } [0x61] = true ∧
+          exMan.canCall (List.replicate 20 4) { exMan with groups := some [⟨exKey 9, []⟩] } [0x62] = false := by decide
+
+end NeoModel.Flags.MF
